@@ -1,6 +1,7 @@
+import os
 import re
 def cases(tier, hdr, path):
-    src = open("/repo/src/include/janet.h").read()
+    src = open(os.path.join(os.environ.get("VF_REPO", "/repo"), "src/include/janet.h")).read()
     m = re.search(r"typedef enum \{\s*RULE_LITERAL(.*?)\} JanetPegOpcod", src, re.S)
     names = ["RULE_LITERAL"] + [x.strip().split(",")[0] for x in m.group(1).split("\n") if x.strip().startswith("RULE_")]
     R = {n: i for i, n in enumerate(names)}
